@@ -69,6 +69,16 @@ PROPS = {
         "level_text": "Theorems over all histories of the world model (API truth, two lagging caches, work queue with rate-limited retries, write faults and conflicts): at every settled state the API status lists exactly the owned active / queued Jobs with matching counts and derived state, and its high-water marks dominate all present Jobs; lastScheduled/lastExecuted never decrease; anything a completed pass saw stays dominated forever (also after deletion). Proof by an invariant (caches replay the API; pending JobConfig objects are older and no larger; 'not queued, nothing delayed, no pending JobConfig event => the cached status is a fixpoint'). The world model is tied to the real InformerWorker + Reconciler + reconciler.Controller by the jcstatus stream; an independent monitor restates the property on the implementation trace.",
         "level_note": "Trusted: Coq kernel + vm_compute; harness-driven informers/work queue (SimInformer, SimQueue) and the JobConfig status reactor (status sub-resource, resourceVersion conflict).",
     },
+    "C19": {
+        "props_file": "Props/C19.v",
+        "theorems": ["c19_merge_fieldwise", "c19_fieldwise", "c19_decode_all_fields", "c19_decode_fails_iff", "c19_atomic_source", "c19_event_accepted_iff_all_parse", "c19_read_result", "c19_lkg", "c19_recovers"],
+        "families": [{"name": "config", "n_quick": 3000, "n_thorough": 60000}],
+        "rule": "config: sequences of 4-20 ops on the real ConfigManager [DefaultsLoader, ConfigMapLoader, SecretLoader]: ConfigMap / Secret events (own object or a foreign one) whose entries for the three kinds and an unrelated key are generated documents (YAML or JSON; every subset of the kind's fields; values right-typed incl. 0/false/empty string, null, wrong-typed numbers/strings/bools, fractions, empty and non-empty lists and maps; unknown fields) or malformed text (8 shapes) or invalid base64, and reads of Jobs()/JobConfigs()/Cron() through ContextConfigs. The model is given the generator's intention (parsed layer or 'malformed'), not the parser's result. non-trivial = more than one read; distinct by op list",
+        "trusted": ["YAML/JSON parsing (k8s yaml.NewYAMLOrJSONDecoder) and base64 are exercised, not modelled: a document the generator meant as malformed but the parser accepts (or vice versa) shows up as a mismatch", "the model of mergo v0.3.12's map merge and of mapstructure's non-weak decode was written from their source and is tied by the stream"],
+        "assumptions": ["events are delivered synchronously through the verif hook VerifHandleUpdate; the informer plumbing of the loaders (Start, WaitForCacheSync) is not exercised", "a map-valued entry for a scalar field is dropped by mergo when the lower layer holds a non-empty value (it neither overrides nor makes the kind undecodable); the field-wise theorem excludes map values and the monitor does not judge such reads - observation recorded in DESIGN.md"],
+        "level_text": "Theorems for all states / op sequences: merge of a layer is key by key (null, zero, false, empty string and lists override; untouched keys keep the lower value), the effective value of each field is Secret else ConfigMap else default, decoding is all-or-nothing and field by field, a source's content is its latest fully parsed event, a read returns the full decode of the current layering or exactly the last successful read of that kind or an error, and recovers at once. Model tied to the real loaders and manager by the config stream with an independent field-wise / last-known-good monitor.",
+        "level_note": "Trusted: Coq kernel + vm_compute; YAML/base64 parsers as exercised oracles; verif hooks for synchronous event delivery.",
+    },
     "C05": {
         "props_file": "Props/C05.v",
         "theorems": ["c05_pass_bound", "c05_no_double_increment", "c05_release_on_finish", "c05_release_on_delete", "c05_store_steps", "c05_rollback", "c05_recover"],
